@@ -965,11 +965,23 @@ Proof.
   apply Forall_rev. assumption.
 Qed.
 
-Lemma rstrip0_text_nul : forall s, ascii_text s -> rstrip0 (s ++ [0]) = s.
+Lemma lstrip0_zeros : forall k l, lstrip0 (repeat 0 k ++ l) = lstrip0 l.
+Proof. induction k as [|k IH]; intros l; [reflexivity|]. cbn [repeat app lstrip0]. apply IH. Qed.
+
+Lemma rev_repeat0 : forall k, rev (repeat 0 k) = repeat 0 k.
 Proof.
-  intros s H. unfold rstrip0. rewrite rev_app_distr. cbn [rev app lstrip0].
+  induction k as [|k IH]; [reflexivity|]. cbn [repeat rev]. rewrite IH.
+  clear IH. induction k as [|k IH]; [reflexivity|]. cbn [repeat app]. rewrite IH. reflexivity.
+Qed.
+
+Lemma rstrip0_text_nul : forall s k, ascii_text s -> rstrip0 (s ++ repeat 0 k) = s.
+Proof.
+  intros s k H. unfold rstrip0. rewrite rev_app_distr, rev_repeat0, lstrip0_zeros.
   rewrite lstrip0_pos; [apply rev_involutive|]. apply Forall_rev. assumption.
 Qed.
+
+Lemma is_ascii_zeros : forall k, is_ascii (repeat 0 k) = true.
+Proof. induction k; [reflexivity|]. unfold is_ascii in *. cbn [repeat forallb]. rewrite IHk. reflexivity. Qed.
 
 Lemma partition0_text : forall s rest, ascii_text s -> partition0 (s ++ 0 :: rest) = (s, rest).
 Proof.
@@ -1010,17 +1022,17 @@ Proof.
   rewrite match_labels_ok by assumption. reflexivity.
 Qed.
 
-Theorem sver_legacy_roundtrip : forall x y pcpu vcpu major minor buf date name,
+Theorem sver_legacy_roundtrip : forall x y pcpu vcpu major minor buf date name pad,
   sver_header_valid x y pcpu vcpu buf -> 0 <= major -> 0 <= minor < 100 -> 100 * major + minor < 65535 ->
   ascii_text name ->
-  decode_sver (encode_sver_legacy x y pcpu vcpu major minor buf date name) =
+  decode_sver (encode_sver_legacy x y pcpu vcpu major minor buf date name pad) =
   Ok (mkCO (x, y) pcpu vcpu (major, minor, 0) buf date name []).
 Proof.
-  intros x y pcpu vcpu major minor buf date name Hh Hmaj Hmin Hlt Hname.
+  intros x y pcpu vcpu major minor buf date name pad Hh Hmaj Hmin Hlt Hname.
   unfold decode_sver, encode_sver_legacy. cbn [r_arg1 r_arg2 r_arg3 r_data].
   destruct (sver_header x y pcpu vcpu buf (100 * major + minor) date Hh ltac:(lia)) as (H1 & H2 & H3 & H4 & H5).
   cbv zeta in H1, H2, H3, H4, H5. rewrite H1, H2, H3, H4, H5.
-  rewrite is_ascii_app, ascii_text_is_ascii by assumption. cbn [is_ascii forallb andb Z.leb Z.ltb Z.compare].
+  rewrite is_ascii_app, ascii_text_is_ascii, is_ascii_zeros by assumption. cbn [andb].
   unfold sver_is_legacy. replace (100 * major + minor =? 65535) with false by (symmetry; apply Z.eqb_neq; lia).
   cbn [negb]. rewrite rstrip0_text_nul by assumption.
   unfold sver_legacy_major, sver_legacy_minor, sver_legacy_patch.
@@ -1028,12 +1040,12 @@ Proof.
   reflexivity.
 Qed.
 
-Theorem sver_semver_roundtrip : forall x y pcpu vcpu buf date name d1 d2 d3 labels,
+Theorem sver_semver_roundtrip : forall x y pcpu vcpu buf date name d1 d2 d3 labels pad,
   sver_header_valid x y pcpu vcpu buf -> ascii_text name -> digits d1 -> digits d2 -> digits d3 -> labels_ok labels ->
-  decode_sver (encode_sver_semver x y pcpu vcpu buf date name d1 d2 d3 labels) =
+  decode_sver (encode_sver_semver x y pcpu vcpu buf date name d1 d2 d3 labels pad) =
   Ok (mkCO (x, y) pcpu vcpu (dec_value d1, dec_value d2, dec_value d3) buf date name labels).
 Proof.
-  intros x y pcpu vcpu buf date name d1 d2 d3 labels Hh Hname H1 H2 H3 Hl.
+  intros x y pcpu vcpu buf date name d1 d2 d3 labels pad Hh Hname H1 H2 H3 Hl.
   unfold decode_sver, encode_sver_semver. cbn [r_arg1 r_arg2 r_arg3 r_data].
   destruct (sver_header x y pcpu vcpu buf 65535 date Hh ltac:(lia)) as (E1 & E2 & E3 & E4 & E5).
   cbv zeta in E1, E2, E3, E4, E5. rewrite E1, E2, E3, E4, E5.
@@ -1042,11 +1054,12 @@ Proof.
     unfold ascii_text in *. apply Forall_app. split; [apply digits_ascii_text; assumption|].
     constructor; [lia|]. apply Forall_app. split; [apply digits_ascii_text; assumption|].
     constructor; [lia|]. apply Forall_app. split; [apply digits_ascii_text; assumption|assumption]. }
-  assert (Hasc : is_ascii (name ++ 0 :: (d1 ++ 46 :: d2 ++ 46 :: d3 ++ labels) ++ [0]) = true).
+  assert (Hasc : is_ascii (name ++ 0 :: (d1 ++ 46 :: d2 ++ 46 :: d3 ++ labels) ++ repeat 0 pad) = true).
   { rewrite is_ascii_app, ascii_text_is_ascii by assumption. cbn [andb].
-    change (0 :: (d1 ++ 46 :: d2 ++ 46 :: d3 ++ labels) ++ [0]) with ([0] ++ (d1 ++ 46 :: d2 ++ 46 :: d3 ++ labels) ++ [0]).
-    rewrite (is_ascii_app [0] _). rewrite (is_ascii_app (d1 ++ 46 :: d2 ++ 46 :: d3 ++ labels) [0]).
-    rewrite (ascii_text_is_ascii _ Htxt). reflexivity. }
+    change (0 :: (d1 ++ 46 :: d2 ++ 46 :: d3 ++ labels) ++ repeat 0 pad)
+      with ([0] ++ (d1 ++ 46 :: d2 ++ 46 :: d3 ++ labels) ++ repeat 0 pad).
+    rewrite (is_ascii_app [0] _). rewrite (is_ascii_app (d1 ++ 46 :: d2 ++ 46 :: d3 ++ labels) (repeat 0 pad)).
+    rewrite (ascii_text_is_ascii _ Htxt), is_ascii_zeros. reflexivity. }
   rewrite Hasc. change (sver_is_legacy 65535) with false. cbv iota.
   rewrite partition0_text by assumption. rewrite rstrip0_text_nul by assumption.
   rewrite match_version_ok by assumption. rewrite rstrip0_text by assumption. reflexivity.
@@ -1068,7 +1081,7 @@ Lemma ex_sver_semver :
   sver_header_valid 3 4 17 0 256 /\ ascii_text (chars "SC&MP/SpiNNaker") /\ digits (chars "2") /\ digits (chars "10") /\
   digits (chars "0") /\ labels_ok (chars "-dev") /\
   option_map flat_core_info (okopt (decode_sver (encode_sver_semver 3 4 17 0 256 1459253424 (chars "SC&MP/SpiNNaker")
-                                                                    (chars "2") (chars "10") (chars "0") (chars "-dev"))))
+                                                                    (chars "2") (chars "10") (chars "0") (chars "-dev") 0)))
   = Some [[3; 4; 17; 0; 2; 10; 0; 256; 1459253424]; chars "SC&MP/SpiNNaker"; chars "-dev"].
 Proof.
   split; [unfold sver_header_valid, is_byte; lia|].
